@@ -208,6 +208,24 @@ def node_calls(cfg: CFG, nid: int, pred: Callable[[ast.Call], bool]) -> list[ast
     return out
 
 
+def reaching_defs(cfg: CFG, nid: int, name: str) -> list[int]:
+    """CFG nodes whose write of `name` can reach node `nid` (no intervening write)."""
+    out: list[int] = []
+    seen = {nid}
+    stack = [nid]
+    while stack:
+        n = stack.pop()
+        for p, _lab in cfg.pred[n]:
+            if p in seen:
+                continue
+            seen.add(p)
+            if any(u(w) == name for w in node_writes(cfg, p)):
+                out.append(p)
+                continue
+            stack.append(p)
+    return out
+
+
 def nodes_where(cfg: CFG, pred: Callable[[Node], bool]) -> list[int]:
     return [n.id for n in cfg.nodes if n.ast is not None and pred(n)]
 
